@@ -115,15 +115,22 @@ def run(tier):
                     chk.count(f"{method}:refused:{m['error']['etype']}")
                     continue
                 bad = None
+                mism = []
                 for n, (pv, want) in enumerate(zip(m["values"], exact_d)):
                     tag, s = pv
+                    if tag == "undefined-limit" and Fr(s) == want:
+                        mism.append({"kind": "removable-singularity", "n": n})
+                        continue
                     if tag != "q" or Fr(s) != want:
                         bad = (n, s, H.fr_str(want), tag)
+                        mism.append({"kind": "wrong", "n": n})
                         break
                 chk.count(f"{method}:compared")
                 results[method] = m["values"][:nn]
+                if mism and not bad:
+                    bad = (mism[0]["n"], "0/0", H.fr_str(exact_d[mism[0]["n"]]), "undefined at the parameter point (limit is exact)")
                 if bad:
-                    rec = {"case": c, "param": p, "goal": g["mono"], "method": method, "bad": bad}
+                    rec = {"case": c, "param": p, "goal": g["mono"], "method": method, "bad": bad, "mismatches": mism}
                     fid = attribute(PROP, rec)
                     if fid:
                         chk.known(fid[0], fid[1])
